@@ -1034,7 +1034,15 @@ impl LiveActor {
         started
     }
     /// the real `start_sync` without bootstrap peers (opens the replica for sync, joins the gossip topic)
-    pub async fn verif_start_sync(&mut self, namespace: NamespaceId) -> bool { self.start_sync(namespace, vec![]).await.is_ok() }
+    /// returns `None` if it failed, otherwise whether it dialled a peer (peers remembered as useful are dialled)
+    pub async fn verif_start_sync(&mut self, namespace: NamespaceId) -> Option<bool> {
+        let before = self.running_sync_connect.len();
+        let res = self.start_sync(namespace, vec![]).await;
+        let started = self.running_sync_connect.len() > before;
+        self.running_sync_connect.abort_all();
+        self.running_sync_connect.detach_all();
+        res.ok().map(|_| started)
+    }
     /// the real `leave` (subscribers are kept)
     pub async fn verif_leave(&mut self, namespace: NamespaceId) -> bool { self.leave(namespace, false).await.is_ok() }
     /// a content download for `hash` is pending for the document
